@@ -134,6 +134,36 @@ Theorem squishing_rate_in_0_1 : forall r q,
 Proof. exact squishing_cell. Qed.
 Print Assumptions squishing_rate_in_0_1.
 
+(* ranges added by repairs F21 (target_dimension against the feature dimension, the number of
+   neighbours, the number of landmarks) and F12 (Barnes-Hut t-SNE needs a two-dimensional map) *)
+Theorem target_dimension_le_feature_dimension : forall r z,
+  effective r kw_target_dimension = Some (VIndex z) ->
+  (violated r (CRange [] cell_td_features) = false <-> (1 <= z <= cur_dim r)%Z).
+Proof. exact td_features_cell. Qed.
+Print Assumptions target_dimension_le_feature_dimension.
+
+Theorem target_dimension_le_num_neighbors : forall r z k,
+  effective r kw_target_dimension = Some (VIndex z) ->
+  effective r kw_num_neighbors = Some (VIndex k) ->
+  (violated r (CRange [] cell_td_neighbors) = false <-> (1 <= z <= k)%Z).
+Proof. exact td_neighbors_cell. Qed.
+Print Assumptions target_dimension_le_num_neighbors.
+
+Theorem target_dimension_le_num_landmarks : forall r z q,
+  effective r kw_target_dimension = Some (VIndex z) ->
+  effective r kw_landmark_ratio = Some (VScalar q) ->
+  (violated r (CRange [] cell_td_landmarks) = false <->
+   (1 <= z <= Qtrunc (inject_Z (rq_n r) * q))%Z).
+Proof. exact td_landmarks_cell. Qed.
+Print Assumptions target_dimension_le_num_landmarks.
+
+Theorem barnes_hut_needs_two_dimensions : forall r z th,
+  effective r kw_target_dimension = Some (VIndex z) ->
+  effective r kw_sne_theta = Some (VScalar th) ->
+  (violated r (CRange [theta_positive] cell_td_two) = false <-> ((0 < th)%Q -> z = 2%Z)).
+Proof. exact td_two_cell. Qed.
+Print Assumptions barnes_hut_needs_two_dimensions.
+
 Theorem positive_cells : forall r c v x,
   c_pred c = positive -> effective r (c_kw c) = Some v -> value_Q v = Some x ->
   (violated r (CRange [] c) = false <-> (0 < x)%Q).
@@ -152,6 +182,7 @@ Example cells_nonvacuous :
   effective isomap_at_lower_bounds kw_landmark_ratio = Some (VScalar (1 # 2)) /\
   effective isomap_at_lower_bounds kw_sne_perplexity = Some (VScalar 30) /\
   effective isomap_at_lower_bounds kw_squishing_rate = Some (VScalar dbl_0_99) /\
+  effective isomap_at_lower_bounds kw_sne_theta = Some (VScalar (1 # 2)) /\
   c_pred cell_width = positive /\ c_pred cell_theta = non_negative.
 Proof. vm_compute. repeat split; reflexivity. Qed.
 
